@@ -40,6 +40,10 @@ type duplexHTTPCall struct {
 	requestBodyReader *io.PipeReader
 	requestBodyWriter *io.PipeWriter
 
+	// onRequestSend, if set, runs once, right before the request is handed to
+	// the HTTP client: the place for headers that depend on the moment of
+	// sending (the timeout derived from the context's deadline).
+	onRequestSend   func()
 	sendRequestOnce sync.Once
 	// requestDone is closed once the request side is finished: CloseWrite was
 	// called or the call failed. Until then a goroutine watches the context,
@@ -260,6 +264,9 @@ func (d *duplexHTTPCall) BlockUntilResponseReady() {
 
 func (d *duplexHTTPCall) ensureRequestMade() {
 	d.sendRequestOnce.Do(func() {
+		if d.onRequestSend != nil {
+			d.onRequestSend()
+		}
 		go d.makeRequest()
 		if d.ctx.Done() != nil {
 			go d.watchContext()
